@@ -292,8 +292,10 @@ async def run(loop, case):
     else:
         for i, r in enumerate(case['reqs']):
             out['results'].append(await bounded(i, r))
-    for _ in range(50):
-        await asyncio.sleep(0)
+    # one-way requests are "sent" once they were handed to the transport, and some transports only queue them: let
+    # everything that is runnable run (virtual time moves only when the loop is idle)
+    for _ in range(5):
+        await asyncio.sleep(0.05)
     out['fnf'] = list(seen['fnf'])
     out['mp'] = list(seen['mp'])
     try:
